@@ -67,7 +67,8 @@ FRESH = ["lib/snmplib/asn1.c", "lib/snmplib/snmp_msg.c", "lib/snmplib/snmp_pdu.c
 # ASan + UBSan without the shift checks: asn_parse_int shifts negative ints left (undefined, but not a memory error)
 # recover mode for ASan: the harness reports the error for the case and continues (see h_adversarial.cc)
 SANFLAGS = hbuild.SAN + ["-fno-sanitize=shift", "-fsanitize-recover=address"]
-IMPL_ENV = {"ASAN_OPTIONS": "detect_leaks=0:halt_on_error=0:abort_on_error=0:suppress_equal_pcs=0"}
+# quarantine 16 MB: one case frees little; the default 256 MB makes every case pay for fresh pages
+IMPL_ENV = {"ASAN_OPTIONS": "detect_leaks=0:halt_on_error=0:abort_on_error=0:suppress_equal_pcs=0:quarantine_size_mb=16"}
 
 
 def impl():
@@ -659,7 +660,7 @@ def run(res, tier):
                 "(or, end to end, squid replied)")
     std.run_standard(res, PID, tier, area="adversarial", build_impl=impl, gen_cases=gen_cases, oracle=oracle,
                      corr_name="AdversarialModel (snmp_udp/icp_unit/htcp_*) vs lib/snmplib, src/icp_v2.cc, src/htcp.cc under ASan",
-                     gens=["adversarial", "udpbufs"], n_quick=9000, n_thorough=150000, seed_salt=39, mutate=mutate,
+                     gens=["adversarial", "udpbufs"], n_quick=8000, n_thorough=150000, seed_salt=39, mutate=mutate,
                      norm_impl=norm_impl, kind_fn=kind, nontrivial_fn=nontrivial, impl_env=IMPL_ENV)
     if any(v[0] == "build" for v in res.violations):
         return
